@@ -65,6 +65,9 @@ func (o Opts) Apply() {
 // bystanders calls exported functions that are no option setters. None of them may change a package option or
 // anything else a later call depends on (a function that switches an option for its own use must put it back exactly).
 func bystanders() {
+	// the wide battery first: the calls that FAIL come last, so that whatever a failed call leaves behind (a scratch
+	// buffer not emptied, an option not put back) is met by the call under test and not by another bystander
+	bystandersRemote()
 	mxj.BeautifyXml([]byte(`<a x="1"><!--c--><b>1 &amp; 2</b><c/></a>`), "", " ")
 	mxj.NewMapFormattedXmlSeq([]byte("<a>\n <b>1</b>\n</a>"))
 	mxj.AnyXmlIndent([]interface{}{"x", map[string]interface{}{"k": "<"}}, "", " ")
@@ -102,7 +105,6 @@ func bystanders() {
 	byMap.UpdateValuesForPath("k:v:nosuchtype", "n.l")
 	byMap.NewMap("a:b:c")
 	byMap.ValuesForPath("n.l[x]")
-	bystandersRemote()
 }
 
 var bystanderFiles struct {
